@@ -137,7 +137,7 @@ def schema_statements(schema, rnd, parts=('table', 'rop', 'index')):
     return out
 
 
-def insert_statement(schema, row, rnd, named=None, canonical=False):
+def insert_statement(schema, row, rnd, named=None, canonical=False, spell=None):
     c = row['c']
     attrs = schema['attrs'][c]
     W = lambda w: kwcase(w, rnd)
@@ -149,7 +149,7 @@ def insert_statement(schema, row, rnd, named=None, canonical=False):
         cols = [a for a in attrs if a['n'] not in missing]
         if rnd.random() < 0.5 and not canonical:
             rnd.shuffle(cols)
-        names = (',' + S()).join(a['n'] if rnd.random() < 0.7 or canonical else a['n'].upper() for a in cols)
+        names = (',' + S()).join((spell or {}).get(a['n'], a['n']) if rnd.random() < 0.7 or canonical else a['n'].upper() for a in cols)
         vals = (',' + S()).join(value_text(row['v'][a['n']], a['t'], rnd, canonical) for a in cols)
         return '%s%s%s%s%s%s(%s)%s%s%s(%s);' % (W('INSERT'), S(), W('INTO'), S(), c, S(), names, S(), W('VALUES'), S(), vals)
     vals = (',' + S()).join(value_text(row['v'][a['n']], a['t'], rnd, canonical) for a in attrs)
